@@ -205,6 +205,9 @@ func (fr *flatRunner) processInput(st *blockStats, pl []order, total, k float64,
 			fs, tight, d := checkLaws(v, r, &st.Laws)
 			if tight {
 				st.TightEFail++
+				if os.Getenv("VERIF_C09_DEBUG") != "" {
+					fmt.Fprintf(os.Stderr, "tight-e: total=%v k=%v queues=%v %s shares=%v\n", total, k, qs, resLabel[r], column(cur, r))
+				}
 			}
 			for _, f := range fs {
 				oo := o
